@@ -103,6 +103,9 @@ func both(fs ...func(c *Ctx)) func(c *Ctx) {
 	}
 }
 
+func fresh(pre ...string) func(c *Ctx) { return func(c *Ctx) { CheckFreshRet(c, pre) } }
+func ptreq(pk ...string) func(c *Ctx) { return func(c *Ctx) { PointerEquality(c, "default", pk) } }
+
 func loopShare(pk ...string) func(c *Ctx) { return func(c *Ctx) { LoopShare(c, "default", pk) } }
 
 func init() {
@@ -139,8 +142,9 @@ func init() {
 	// make its own integrity comparison vacuous (anon header) or break a second decryption
 	extraRules["C16"] = roTargetsFor("encrypt/ecies.", "encrypt/ibe.", "sign/anon.Encrypt", "sign/anon.Decrypt")
 	extraRules["C08"] = both(stale("sign/schnorr", "sign/eddsa", "sign/anon"), entropyRule("C08"),
-		func(c *Ctx) { extraRules["__ro_c08"](c) })
-	extraRules["C02"] = both(entropyRule("C02"), func(c *Ctx) {
+		func(c *Ctx) { extraRules["__ro_c08"](c) }, fresh("sign/eddsa.", "sign/schnorr.", "sign/anon."), ptreq("sign/eddsa", "sign/schnorr", "sign/anon"))
+	extraRules["__fresh_c03"] = fresh("MarshalBinary", "Clone", ".Data", ".String", "util/encoding.")
+	extraRules["C02"] = both(entropyRule("C02"), func(c *Ctx) { ScalarModulus(c, "default") }, func(c *Ctx) {
 		for _, cfg := range []string{"default", "ct"} {
 			cfgTag(c, cfg, func() { ReduceDiscipline(c, cfg) })
 		}
@@ -181,8 +185,10 @@ func init() {
 		PairedUpdates(c, "default")
 		CheckMustWrite(c, "C09")
 		AccGate(c, "default", "C09")
+		fresh("sign/bls.", "sign/tbls.", "sign/bdn.", "sign/cosi.")(c)
+		ptreq("sign/bls", "sign/tbls", "sign/bdn", "sign/cosi")(c)
 	}
-	extraRules["C07"] = stale("share")
+	extraRules["C07"] = both(stale("share"), fresh("share.", "(*share."), ptreq("share"))
 	extraRules["C04"] = func(c *Ctx) {
 		CheckMustWrite(c, "C04")
 		ErrDrop(c, "default", []string{"group", "pairing", "sign", "share", "proof", "shuffle", "encrypt", "internal", "util/encoding"})
@@ -214,6 +220,7 @@ func init() {
 			}
 		}
 		SizeTables(c, "default")
+		extraRules["__fresh_c03"](c)
 	}})
 }
 
